@@ -3,11 +3,11 @@ Contracts of the completion functions of tartiflette/coercers/outputs and of the
 and the property statements; each coercer is verified relative to the behaviour its closure denotes (specs/outputs.py)."""
 import z3
 from pyvc.values import *
-from pyvc.values import LEMMA_HOOKS
+from pyvc.values import LEMMA_HOOKS, ForallList, ListImplication
 from pyvc.contracts import Contract, Lemma
-from pyvc.symexec import attr0, field0, fun_id, LoopContract, PyRef, PyFunc, Raise, _obj_bool
+from pyvc.symexec import attr0, field0, fun_id, LoopContract, CompEffect, PyRef, PyFunc, Raise, _obj_bool
 from specs import outputs as SO
-from specs.outputs import OBeh, Conf, denote, exc_wf, carried
+from specs.outputs import OBeh, Conf, denote
 from specs.inputs import cls_is, is_non_null_type
 from .common import *
 
@@ -26,19 +26,6 @@ def _bool_lemmas(e, n):
 LEMMA_HOOKS.append(_bool_lemmas)
 
 
-def carried_exc(x):
-    """elements of MultipleException.exceptions are exceptions"""
-    return cls_is(x, 'Exception')
-
-
-AllCarried = ForallList('carried_exc', carried_exc)
-
-
-def exc_full_wf(e):
-    """exception travelling through completion: well formed, and a MultipleException carries exceptions only"""
-    return z3.And(exc_wf(e), z3.Implies(cls_is(e, 'MultipleException'), AllCarried(V.items(attr0(e, 'exceptions')))))
-
-
 def ctx_errors(st, ctx):
     return fld(st, 'errors', ctx)
 
@@ -48,8 +35,8 @@ def ctx_wf(st, ctx):
 
 
 def resolver_value(v):
-    """arbitrary resolver results: anything but the internal lookup marker; exceptions carried as values are well formed"""
-    return z3.And(v != V.Missing, z3.Implies(V.is_Float(v), wf_float(v)), z3.Implies(cls_is(v, 'Exception'), exc_full_wf(v)))
+    """arbitrary resolver results (recursive): anything but the internal lookup marker; exceptions carried as values are well formed"""
+    return SO.ResWf(v)
 
 
 def output_call(en, st, f, result, ctx):
@@ -92,7 +79,8 @@ class OutputCoercer(Contract):
                [(f"{p}_callable", V.is_Fun(A[p])) for p in self.inner_params]
 
     def ghost0(self, A):
-        return {'inner_called': z3.BoolVal(False)}
+        return {'inner_called': z3.BoolVal(False), 'inner_raised': z3.BoolVal(False), 'inner_val': V.None_,
+                'errors_after_inner': z3.Select(field0('errors'), A['execution_context'])}
 
     def call_model(self, en, st, f, a, kw):
         for p in self.inner_params:
@@ -106,7 +94,8 @@ class OutputCoercer(Contract):
         grow = ('errors_only_grow', z3.And(V.is_List(ctx_errors(out.st, ctx)), length(e1) >= length(e0)))
         if out.kind == 'raise':
             return [('raised_is_wf', exc_full_wf_now(out.st, out.value)), grow] + self.post_raise(A, st0, out)
-        return [('conforms', Conf(self.beh(A), out.value)), ('not_a_sentinel', z3.And(out.value != V.Undef, out.value != V.Missing)), grow] + self.post_return(A, st0, out)
+        return [('conforms', Conf(self.beh(A), out.value)), ('not_a_sentinel', z3.And(out.value != V.Undef, out.value != V.Missing)),
+                ('not_an_exception', z3.Not(cls_is(out.value, 'Exception'))), grow] + self.post_return(A, st0, out)
 
     def post_raise(self, A, st0, out):
         return []
@@ -131,9 +120,7 @@ class NonNullOut(OutputCoercer):
         return OBeh.ONonNull(denote(A['inner_coercer']))
 
     def pre(self, A, st):
-        i = A['info']
-        return super().pre(A, st) + [('info', z3.And(exact(i, 'ResolveInfo'), V.oref(i) >= 0, inst(attr0(i, 'parent_type'), 'GraphQLType'),
-                                                     z3.Not(is_wrapping(attr0(i, 'parent_type'))), V.oref(attr0(i, 'parent_type')) >= 0))]
+        return super().pre(A, st) + [('info', info_wf(A['info']))]
 
     def post_return(self, A, st0, out):
         g = out.st.ghost
@@ -193,7 +180,7 @@ class ScalarOut(DecoratedOut):
             x = en.read(a[0], st)
             r = SO.ScOut_val(t, x)
             e = V.Obj(fresh('ecls', IntS), fresh('eref', IntS))
-            return en.branches(st, [(z3.And(z3.Not(SO.ScOut_raises(t, x)), SO.Produced(t, r), r != V.Missing), r),
+            return en.branches(st, [(z3.And(z3.Not(SO.ScOut_raises(t, x)), SO.Produced(t, r), r != V.Missing, z3.Not(cls_is(r, 'Exception'))), r),
                                     (z3.And(SO.ScOut_raises(t, x), cls_is(e, 'Exception'), z3.Not(cls_is(e, 'MultipleException')), V.oref(e) >= 0), Raise(e))])
         return None
 
@@ -270,20 +257,22 @@ class MultipleExceptionAdd(Contract):
             return never_raises(out)
         r = out.value
         return [('is_fresh_multiple', z3.And(exact(r, 'MultipleException'), V.oref(r) < 0)),
-                ('concatenates', fld(out.st, 'exceptions', r) == V.List(app(V.items(attr0(A['self'], 'exceptions')), V.items(attr0(A['other'], 'exceptions')))))]
+                ('concatenates', fld(out.st, 'exceptions', r) == V.List(app(V.items(attr0(A['self'], 'exceptions')), V.items(attr0(A['other'], 'exceptions'))))),
+                ('carries_exceptions_only', z3.Implies(z3.And(AllCarried(V.items(attr0(A['self'], 'exceptions'))), AllCarried(V.items(attr0(A['other'], 'exceptions')))),
+                                                       AllCarried(V.items(fld(out.st, 'exceptions', r)))))]
 
 
 # ---- extract_exceptions_from_results: gathers the failures of sibling positions (6.4.4: all of them are reported)
-AnyME = z3.RecFunction('AnyFailureUpTo', VL, IntS, BoolS)
+def failure_or_value(x):
+    return z3.Implies(cls_is(x, 'MultipleException'), exc_full_wf(x))
+
+
+AllFOV = ForallList('failure_or_value', failure_or_value)
+NotME = ForallList('not_failure', lambda x: z3.Not(cls_is(x, 'MultipleException')))
 SumME = z3.RecFunction('CarriedUpTo', VL, IntS, IntS)
 _rs = z3.Const('rs_', VL)
 _k = z3.Int('ek_')
-z3.RecAddDefinition(AnyME, [_rs, _k], z3.If(_k <= 0, False, z3.Or(AnyME(_rs, _k - 1), cls_is(nth(_rs, _k - 1), 'MultipleException'))))
 z3.RecAddDefinition(SumME, [_rs, _k], z3.If(_k <= 0, 0, SumME(_rs, _k - 1) + z3.If(cls_is(nth(_rs, _k - 1), 'MultipleException'), carried(nth(_rs, _k - 1)), 0)))
-
-
-def failure_or_value(x):
-    return z3.Implies(cls_is(x, 'MultipleException'), z3.And(exc_full_wf(x), V.oref(x) >= 0))
 
 
 class ExtractExceptions(Contract):
@@ -296,17 +285,14 @@ class ExtractExceptions(Contract):
         return self.A
 
     def pre(self, A, st):
-        return [('results_is_list', V.is_List(A['results']))]
-
-    def elem_preds(self, A):
-        return [(V.items(A['results']), failure_or_value)]
+        return [('results', z3.And(V.is_List(A['results']), AllFOV(V.items(A['results']))))]
 
     def _inv(self, en, st, k, st0):
         ex = st.env['exceptions']
         rs = V.items(self.A['results'])
         items = V.items(fld(st, 'exceptions', ex))
-        return {'accumulator': z3.And(exact(ex, 'MultipleException'), V.is_List(fld(st, 'exceptions', ex))),
-                'empty_iff_no_failure': VL.is_nil(items) == z3.Not(AnyME(rs, k)),
+        return {'accumulator': z3.And(exact(ex, 'MultipleException'), V.is_List(fld(st, 'exceptions', ex)), AllCarried(items)),
+                'empty_iff_no_failure': VL.is_nil(items) == NotME(take(rs, k)),
                 'carries_all': length(items) == SumME(rs, k)}
 
     @property
@@ -319,9 +305,10 @@ class ExtractExceptions(Contract):
         rs = V.items(A['results'])
         n = length(rs)
         r = out.value
-        return [('none_iff_no_failure', (r == V.None_) == z3.Not(AnyME(rs, n))),
-                ('gathers_every_failure', z3.Implies(r != V.None_, z3.And(exact(r, 'MultipleException'), V.is_List(fld(out.st, 'exceptions', r)),
-                                                                         length(V.items(fld(out.st, 'exceptions', r))) == SumME(rs, n), SumME(rs, n) >= 1)))]
+        ex = fld(out.st, 'exceptions', r)
+        return [('none_iff_no_failure', (r == V.None_) == NotME(rs)),
+                ('gathers_every_failure', z3.Implies(r != V.None_, z3.And(exact(r, 'MultipleException'), V.is_List(ex), z3.Not(VL.is_nil(V.items(ex))), AllCarried(V.items(ex)),
+                                                                         length(V.items(ex)) == SumME(rs, n))))]
 
 
 class LocatedError(Contract):
@@ -478,13 +465,140 @@ class CompleteValueCatchingError(Contract):
                     ('carries_the_failure', z3.And(exact(r, 'MultipleException'), exc_full_wf_now(out.st, r))),
                     ('nothing_recorded_here', e1 == after)]
         v = out.value
-        return [('conforms', Conf(b, v)), ('not_a_sentinel', z3.And(v != V.Undef, v != V.Missing)),
+        return [('conforms', Conf(b, v)), ('not_a_sentinel', z3.And(v != V.Undef, v != V.Missing)), ('not_an_exception', z3.Not(cls_is(v, 'Exception'))),
                 ('no_failure_no_change', z3.Implies(z3.Not(failed), z3.And(v == g['inner_val'], e1 == after))),
                 ('failure_nulls_nullable_position', z3.Implies(failed, z3.And(z3.Not(is_non_null_type(T_)), v == V.None_,
                                                                             V.is_List(e1), length(V.items(e1)) >= length(V.items(after)) + 1))),
                 ('errors_only_grow', z3.And(V.is_List(e1), length(V.items(e1)) >= length(e0)))]
 
 
-CONTRACTS = COMMON_CONTRACTS + [IsCoercible(), MultipleExceptionBool(), MultipleExceptionAdd(), ExtractExceptions(), LocatedError(), AddError(),
+def item_outcome(x, b, nn):
+    """what complete_value_catching_error leaves at a list position: a completed value, or (non-null items only) the failure"""
+    return z3.Or(z3.And(cls_is(x, 'MultipleException'), exc_full_wf(x), nn),
+                 z3.And(z3.Not(cls_is(x, 'Exception')), Conf(b, x), x != V.Undef, x != V.Missing))
+
+
+AllOutcome = ForallList('item_outcome', item_outcome, (OBeh, BoolS))
+
+
+class _OutcomeConforms(ListImplication):
+    """AllOutcome(l, b, nn) & NotME(l) => AllConf(l, b)"""
+    def __init__(self):
+        self.name, self.conclusion = 'outcomes_without_failure_conform', SO.AllConf
+        self.nn = z3.Bool('pw_nn')
+        SO.AllConf.implied_by.append(self)
+        ListImplication.registry.append(self)
+
+    def instance(self, l, ps):
+        b = ps[0]
+        # nn is existential on the premise side: instantiate with both truth values
+        return z3.And(*[z3.Implies(z3.And(AllOutcome(l, b, z3.BoolVal(v)), NotME(l)), SO.AllConf(l, b)) for v in (True, False)])
+
+    def pointwise(self):
+        x, b = z3.Const('pw_x', V), z3.Const('pw_b', OBeh)
+        return [item_outcome(x, b, self.nn), z3.Not(cls_is(x, 'MultipleException'))], Conf(b, x)
+
+
+class _OutcomeIsFOV(ListImplication):
+    """AllOutcome(l, b, nn) => AllFOV(l)   (instantiated for the AllOutcome facts of the query)"""
+    def __init__(self):
+        self.name, self.conclusion = 'outcomes_are_failures_or_values', AllFOV
+        ListImplication.registry.append(self)
+
+    def pointwise(self):
+        x, b, nn = z3.Const('pw_x', V), z3.Const('pw_b', OBeh), z3.Bool('pw_nn')
+        return [item_outcome(x, b, nn)], failure_or_value(x)
+
+
+IMP1, IMP2 = _OutcomeConforms(), _OutcomeIsFOV()
+
+
+class _NullableItemsNeverFail(ListImplication):
+    """AllOutcome(l, b, nn) & not nn => NotME(l): failures are only left at non-null item positions"""
+    def __init__(self):
+        self.name, self.conclusion = 'nullable_items_never_fail', NotME
+        ListImplication.registry.append(self)
+
+    def pointwise(self):
+        x, b, nn = z3.Const('pw_x', V), z3.Const('pw_b', OBeh), z3.Bool('pw_nn')
+        return [item_outcome(x, b, nn), z3.Not(nn)], z3.Not(cls_is(x, 'MultipleException'))
+
+
+IMP3 = _NullableItemsNeverFail()
+
+
+def _outcome_hook(e, n):
+    if n == AllOutcome.name:
+        return [z3.Implies(e, AllFOV(e.arg(0))), z3.Implies(z3.And(e, z3.Not(e.arg(2))), NotME(e.arg(0)))]
+    return []
+
+
+LEMMA_HOOKS.append(_outcome_hook)
+
+
+class ListOut(DecoratedOut):
+    """list_coercer_sequentially / list_coercer_concurrently share ONE contract (C08): positional results, all item failures gathered"""
+    params = ['result', 'info', 'execution_context', 'field_nodes', 'path', 'item_type', 'inner_coercer']
+    property_ids = ('C02', 'C03', 'C08')
+    modifies_fields = ('errors', 'coerce_value')
+
+    def __init__(self, key, concurrent):
+        super().__init__(key)
+        self.concurrent = concurrent
+
+    def beh(self, A):
+        return OBeh.OList(z3.BoolVal(self.concurrent), A['item_type'], denote(A['inner_coercer']))
+
+    def nn(self, A):
+        return is_non_null_type(A['item_type'])
+
+    def pre(self, A, st):
+        i = A['info']
+        return [('result', SO.ResWf(A['result'])), ('context', ctx_wf(st, A['execution_context'])),
+                ('inner_callable', V.is_Fun(A['inner_coercer'])),
+                ('path', PathWf(A['path'])), ('field_nodes', z3.Or(A['field_nodes'] == V.None_, node_list(A['field_nodes']))),
+                ('item_type', z3.And(inst(A['item_type'], 'GraphQLType'), V.oref(A['item_type']) >= 0)),
+                ('coercer_matches_item_type', self.nn(A) == z3.Not(Conf(denote(A['inner_coercer']), V.None_))),
+                ('info', info_wf(i))]
+
+    def _inv(self, en, st, k, st0):
+        A = self.A
+        ctx = A['execution_context']
+        items = V.items(en.read(st.env['results'], st))
+        e0, e1 = V.items(ctx_errors(st0, ctx)), ctx_errors(st, ctx)
+        return {'positional': length(items) == k, 'outcomes': AllOutcome(items, denote(A['inner_coercer']), self.nn(A)),
+                'errors_only_grow': z3.And(V.is_List(e1), length(V.items(e1)) >= length(e0))}
+
+    @property
+    def loops(self):
+        return {0: LoopContract(self._inv, modifies_fields=('errors', 'coerce_value'))} if not self.concurrent else {}
+
+    def _effect(self, en, st, k, st0):
+        ctx = self.A['execution_context']
+        e0, e1 = V.items(ctx_errors(st0, ctx)), ctx_errors(st, ctx)
+        return {'errors_only_grow': z3.And(V.is_List(e1), length(V.items(e1)) >= length(e0))}
+
+    @property
+    def comp_effects(self):
+        return {0: CompEffect(self._effect, ('errors', 'coerce_value'))} if self.concurrent else {}
+
+    @property
+    def comp_all(self):
+        return {0: [(AllOutcome, (denote(self.A['inner_coercer']), self.nn(self.A)))]} if self.concurrent else {}
+
+    def post_return(self, A, st0, out):
+        return [('positional', z3.And(V.is_List(out.value), length(V.items(out.value)) == length(V.items(A['result']))))]
+
+    def post_raise(self, A, st0, out):
+        r = out.value
+        return [('only_non_list_or_non_null_item_failure', z3.Or(z3.And(z3.Not(V.is_List(A['result'])), exact(r, 'TypeError')),
+                                                                z3.And(V.is_List(A['result']), self.nn(A), exact(r, 'MultipleException'))))]
+
+
+def fresh_nn():
+    return z3.Bool('nn_')
+
+
+CONTRACTS = COMMON_CONTRACTS + [ListOut(O + 'list_coercer.py::list_coercer_sequentially', False), ListOut(O + 'list_coercer.py::list_coercer_concurrently', True), IsCoercible(), MultipleExceptionBool(), MultipleExceptionAdd(), ExtractExceptions(), LocatedError(), AddError(),
                                 HandleFieldError(), CompleteValueCatchingError(), NonNullOut(), NullWrapperOut(), ScalarOut(), DirectivesOut()]
-LEMMAS = []
+LEMMAS = [Lemma('pointwise:' + imp.name, *imp.pointwise()) for imp in ListImplication.registry]
